@@ -3,6 +3,9 @@ a `prog` (straight-line list of constructor calls, JSON) to a real Python graph 
 and the canonical description of a built SynthDef.
 
 prog = {"ir": [default, ...], "kr": [default, ...], "ins": [instr, ...], "mce": [[start, count], ...]}
+"blocks": [[start, count, {"form", "rows", "result"}], ...]: the `count` instructions from `start` are what ONE call of
+a sum helper does (ChannelList(rows).sum() / Mix.new(rows), rows flat or nested, plain lists or ChannelLists); only
+the instructions named in "result" have a value the rest of the program can use.
 "mce": the `count` consecutive instructions from `start` (same kind, same operator / class / rate) are written as
 ONE multichannel call in the Python graph function (list arguments where the channels differ); for the model
 and the evaluators the program is still the per-channel instruction sequence (multichannel expansion must be
@@ -194,6 +197,27 @@ def mce_call(group, arg):
     return r
 
 
+def helper_call(spec, arg):
+    """One call of a sum helper (ChannelList.sum / Mix.new) over a flat list or over nested rows of channels."""
+    import sc3.synth.ugen as ugn
+    from sc3.synth.ugens.mix import Mix
+    form = spec['form']
+    rows = [[arg(x) for x in row] for row in spec['rows']]
+    nch = len(rows[0])
+    if 'nested' in form:
+        data = [ugn.ChannelList(r) for r in rows] if form.endswith('_cl') else [list(r) for r in rows]
+    else:
+        data = [r[0] for r in rows]
+    r = Mix.new(data) if form.startswith('mix') else ugn.ChannelList(data).sum()
+    if 'nested' in form:
+        r = list(r) if isinstance(r, list) else [r]
+    else:
+        r = [r[0] if isinstance(r, list) and len(r) == 1 else r]
+    if len(r) != nch:
+        raise Unsupported('sum helper gave %d channels for %d' % (len(r), nch))
+    return r
+
+
 def make_func(prog):
     """Build the real Python graph function of a prog."""
     import sc3.synth.ugen as ugn
@@ -225,8 +249,18 @@ def make_func(prog):
             return v
 
         groups = {g[0]: g[1] for g in prog.get('mce', []) if g[1] >= 2}
+        blocks = {b[0]: b for b in prog.get('blocks', [])}
         pos = 0
         while pos < len(ins):
+            if pos in blocks:
+                _, n, spec = blocks[pos]
+                res = helper_call(spec, arg)
+                vals.extend([None] * n)
+                for ch, a in enumerate(spec['result']):
+                    if a[0] == 'v' and pos <= a[1] < pos + n:
+                        vals[a[1]] = res[ch]
+                pos += n
+                continue
             if pos in groups:
                 n = groups[pos]
                 vals.extend(mce_call(ins[pos:pos + n], arg))
